@@ -55,6 +55,8 @@ def gen_config(rng):
     # the directory that holds a namespace package is on sys.path twice (script directory + PYTHONPATH): the
     # package's __path__ lists the same directory twice, its modules still exist once
     cfg["path_twice"] = cfg["namespace_pkg"] and rng.random() < 0.5
+    # stray hidden files next to the modules (macOS AppleDouble companions `._name.py`, editor lock files): not modules
+    cfg["dotfiles"] = rng.random() < 0.1
     # at most one default unless faults are wanted
     if not p_fault:
         seen = False
@@ -213,6 +215,9 @@ def write_package(cfg, root):
             L.append("X = 1 / 0")
         with open(os.path.join(d, m["name"] + ".py"), "w") as f:
             f.write("\n".join(L) + "\n")
+        if cfg.get("dotfiles"):
+            with open(os.path.join(d, "._" + m["name"] + ".py"), "wb") as f:
+                f.write(b"\x00\x05\x16\x07\x00\x02\x00\x00Mac OS X        ")
 
 
 class _Sim:
@@ -284,15 +289,18 @@ def execute(plan, trace=False):
     DS.setFmsAttached(bool(cfg["fms"]))
     DS.notifyNewData()
     nt = ntcore.NetworkTableInstance.getDefault()
-    real_glob = selmod.glob
+    real_glob = getattr(selmod, "glob", None)
 
     def perm_glob(pattern):
         r = sorted(real_glob(pattern))
         random.Random(cfg["glob_perm"]).shuffle(r)
         return r
 
-    selmod.glob = perm_glob
-    fault("directory_listing_permuted")
+    if real_glob is not None:
+        # the seam is the module's own `glob` name; a selector that lists the directory some other way simply keeps
+        # the file system's order
+        selmod.glob = perm_glob
+        fault("directory_listing_permuted")
     if cfg.get("path_twice") and not cfg["missing"]:
         fault("namespace_package_directory_twice_on_sys_path")
     if any(c.get("imported") for m in cfg["modules"] for c in m["classes"]) and not cfg["missing"]:
@@ -545,7 +553,8 @@ def execute(plan, trace=False):
     except Violation as v:
         status, violation = "violation", v.to_json()
     finally:
-        selmod.glob = real_glob
+        if real_glob is not None:
+            selmod.glob = real_glob
         hal.waitForNotifierAlarm = real_wait
     nontrivial = probes.get("period_with_mode", 0) + probes.get("run_period_with_mode", 0) > 0 and len(d["healthy"]) >= 2
     nontrivial = nontrivial or (bool(d["faults"]))
